@@ -12,10 +12,8 @@ for pd in benign/*/; do
   for c in $ids; do
     VX_REPO="$d/repo" VX_NO_EVIDENCE=1 VX_REPLAY_DIR="$d/replays" ./run $c quick > $d/o.txt 2>&1; rc=$?
     n=$((n+1))
-    # b1A relocates the math/big glue of the recorded finding KF1 into a helper: the same defect at a new call site is
-    # reported again by design (findings are identified by call site)
     if [ $rc -ne 0 ]; then
-      if [ "$name/$c" = "b1A/C08" ]; then echo "expected: $name $c reports KF1 at its new call site"; else bad=$((bad+1)); echo "ALARM $name $c rc=$rc"; grep "key=" $d/o.txt | head -5 | cut -c1-260; fi
+      bad=$((bad+1)); echo "ALARM $name $c rc=$rc"; grep "key=" $d/o.txt | head -5 | cut -c1-260
     fi
   done
   rm -rf "$d"
